@@ -113,8 +113,14 @@ class ScriptedConstraint:
         from mici.errors import LinAlgError
 
         if self.n >= len(self.script):
-            raise ScriptExhausted
-        kind, sign, exp = self.script[self.n]
+            # the documented algorithm never evaluates the constraint beyond the script; an implementation
+            # that carries on (a fallback, an extra polishing pass) sees a constraint that is satisfied to
+            # 2^-40 from here on, so that whatever it then returns can be judged by the property itself
+            if self.n >= len(self.script) + 200:
+                raise ScriptExhausted
+            kind, sign, exp = "val", 1, -40
+        else:
+            kind, sign, exp = self.script[self.n]
         self.n += 1
         if kind == "raise":
             self.residuals.append(None)
